@@ -199,6 +199,13 @@ def run_case(case, ctx):
         obs.fail('header_cards', repr(e))
         return obs
     nchan_h = obsnchan // nants
+    # the band described three ways must be one band: OBSBW = CHAN_BW * channels per antenna (signed like CHAN_BW)
+    try:
+        obsbw = float(h['OBSBW'])
+        if abs(obsbw - cbw * nchan_h) > 1e-9 * abs(cbw * nchan_h):
+            obs.fail(f'header_obsbw:{"asc" if c["ascending"] else "desc"}', f'OBSBW {obsbw!r} vs CHAN_BW*nchan {cbw * nchan_h!r}')
+    except (KeyError, ValueError) as e:
+        obs.fail('header_cards', repr(e))
     v = np.concatenate([ref_guppi.decode(b['data'], obsnchan, npol_h, nbits_h) for b in blocks], axis=1)   # (chan, time, pol)
     # ---- locate the tone with the file's own header -----------------------------------------------
     power = np.zeros((obsnchan, nspec, L))
